@@ -65,13 +65,13 @@ fn add_direct_body<const N: usize, const NI: usize, const NO: usize>(maxch: usiz
     } else {
         assert!(r.is_ok(), "C03: submission that fits must be accepted");
         let head = r.unwrap();
-        assert!(head == p0.free_head, "C01: token is the head of the free list");
+        assert!(head == p0.free_head, "C01/C07: token is the head of the free list (computed from private state, whatever device-visible memory holds)");
         // ---- what the device sees
         let dev1 = dev_snap(&b);
         let slot = (p0.avail_idx as usize) & (N - 1);
-        assert!(dev1.avail_idx == p0.avail_idx.wrapping_add(1), "C01: available index must advance by exactly one");
-        assert!(q.avail_idx == dev1.avail_idx, "C01: private and published available index differ");
-        assert!(dev1.ring[slot] == head, "C01: ring slot designated by the previous available index must hold the new head");
+        assert!(dev1.avail_idx == p0.avail_idx.wrapping_add(1), "C01/C07: available index must advance by exactly one from the driver's private copy (device-visible memory is arbitrary here)");
+        assert!(q.avail_idx == dev1.avail_idx, "C01/C07: private and published available index differ");
+        assert!(dev1.ring[slot] == head, "C01/C07: ring slot designated by the previous (private) available index must hold the new head");
         assert!(dev1.avail_flags == dev0.avail_flags && dev1.used_event == dev0.used_event, "C02: add() wrote avail.flags/used_event");
         let mut i = 0;
         while i < N {
@@ -120,7 +120,7 @@ fn add_direct_body<const N: usize, const NI: usize, const NO: usize>(maxch: usiz
             }
             i += 1;
         }
-        assert!(q.num_used as usize == p0.num_used as usize + n && q.last_used_idx == p0.last_used_idx, "C03: descriptor accounting after add");
+        assert!(q.num_used as usize == p0.num_used as usize + n && q.last_used_idx == p0.last_used_idx, "C03/C07: descriptor accounting after add");
         // INV is re-established with the new chain recorded in the ghost
         g.head[K - 1] = head;
         g.cnt[K - 1] = n as u16;
@@ -128,7 +128,7 @@ fn add_direct_body<const N: usize, const NI: usize, const NO: usize>(maxch: usiz
         g.n_in[K - 1] = n_in as u16;
         g.indirect[K - 1] = false;
         g.eb[K - 1] = n0;
-        assert!(inv_direct(&q, &g), "C01/C03/C04: representation invariant broken by add()");
+        assert!(inv_direct(&q, &g), "C01/C03/C04/C07: representation invariant broken by add()");
     }
     // recycled free list (not the identity), index wrap, mixed directions, another chain outstanding
     // recycled free list (not the identity), index wrap, another chain outstanding
@@ -289,12 +289,12 @@ fn add_indirect_body<const N: usize, const NI: usize, const NO: usize>(maxch: us
         assert!(r.is_ok(), "C03: submission that fits must be accepted");
         let head = r.unwrap();
         let hd = head as usize;
-        assert!(head == p0.free_head, "C01: token is the head of the free list");
+        assert!(head == p0.free_head, "C01/C07: token is the head of the free list (computed from private state, whatever device-visible memory holds)");
         assert!(g.owner[hd % N] == FREE, "C01: descriptor of an outstanding chain reused");
         let dev1 = dev_snap(&b);
         let slot = (p0.avail_idx as usize) & (N - 1);
-        assert!(dev1.avail_idx == p0.avail_idx.wrapping_add(1) && q.avail_idx == dev1.avail_idx, "C01: available index must advance by exactly one");
-        assert!(dev1.ring[slot] == head, "C01: ring slot designated by the previous available index must hold the new head");
+        assert!(dev1.avail_idx == p0.avail_idx.wrapping_add(1) && q.avail_idx == dev1.avail_idx, "C01/C07: available index must advance by exactly one from the driver's private copy (device-visible memory is arbitrary here)");
+        assert!(dev1.ring[slot] == head, "C01/C07: ring slot designated by the previous (private) available index must hold the new head");
         assert!(dev1.avail_flags == dev0.avail_flags && dev1.used_event == dev0.used_event, "C02: add() wrote avail.flags/used_event");
         let mut i = 0;
         while i < N {
@@ -356,7 +356,7 @@ fn add_indirect_body<const N: usize, const NI: usize, const NO: usize>(maxch: us
             }
             tbl[K - 1] = Some(tp);
         }
-        assert!(q.num_used == p0.num_used + 1 && q.last_used_idx == p0.last_used_idx, "C03: descriptor accounting after add");
+        assert!(q.num_used == p0.num_used + 1 && q.last_used_idx == p0.last_used_idx, "C03/C07: descriptor accounting after add");
         g.owner[hd % N] = (K - 1) as u8;
         g.head[K - 1] = head;
         g.cnt[K - 1] = 1;
@@ -364,7 +364,7 @@ fn add_indirect_body<const N: usize, const NI: usize, const NO: usize>(maxch: us
         g.n_in[K - 1] = n_in as u16;
         g.indirect[K - 1] = n > 1;
         g.eb[K - 1] = n0;
-        assert!(inv_indirect(&q, &g, &tbl), "C01/C03/C04: representation invariant broken by add()");
+        assert!(inv_indirect(&q, &g, &tbl), "C01/C03/C04/C07: representation invariant broken by add()");
     }
     kani::cover!(n == 0 || n > N || (r.is_ok() && p0.free_head == (N - 1) as u16 && p0.avail_idx == 0xffff && (N < 4 || g.cnt[0] > 0)));
     // a full queue needs N outstanding chains; the ghost tracks K-1 = 2 before the step, so QueueFull is reachable for N <= 2
@@ -609,7 +609,7 @@ fn step_add_direct_8_i1o2() { add_direct_body::<8, 1, 2>(3) }
 #[kani::unwind(10)]
 fn step_add_direct_8_i2o2() { add_direct_body::<8, 2, 2>(3) }
 
-// @harness props=C01,C02,C03,C04 tier=quick timeout=900
+// @harness props=C01,C02,C03,C04,C07 tier=quick timeout=900
 #[kani::proof]
 #[kani::unwind(10)]
 fn step_add_indirect_4_i1o2() { add_indirect_body::<4, 1, 2>(3) }
